@@ -142,9 +142,11 @@ def _frame(kind, ch: Optional[Choices], uniq, via):
     if kind == "ping":
         return {"k": "ping", "payload": [None, {"p": 1}][d("fr.pingp", 2)]}
     if kind == "nonjson":
-        return {"k": "nonjson", "text": ["not json {", "", "{'type': 'next'}", "﻿nope"][d("fr.nj", 4)]}
+        return {"k": "nonjson", "text": ["not json {", "", "{'type': 'next'}", "﻿nope",
+                                         "erreur interne du serveur — réessayez plus tard " + "é" * 150,
+                                         "サーバーエラー" * 40][d("fr.nj", 6)]}
     if kind == "unknown":
-        return {"k": "unknown", "type": ["weird", "connection_error", "NEXT", "data", 5, True][d("fr.unk", 6)]}
+        return {"k": "unknown", "type": ["weird", "connection_error", "NEXT", "data", 5, True, "неизвестный-тип-" + "ы" * 130][d("fr.unk", 7)]}
     if kind == "notype":
         return {"k": "notype", "variant": d("fr.nt", 9)}
     if kind == "next_nodata":
@@ -260,6 +262,9 @@ def draw_config(case, ch: Choices):
         s["start_delay"] = ch.pick("sub.delay", [0.0, 0.0, 0.01, 2.0])
         s["vars"] = ch.draw("sub.vars", 6)
         s["lib_headers_kw"] = p.get("mode") != "enum" and ch.chance("sub.lib_headers_kw", 1, 6)
+        # the consumer gives up while a step of the iterator is pending (wait_for time-out, task cancelled): same standing as a
+        # consumer that leaves early - nothing more is asserted about it, everything about the other subscriptions
+        s["cancel_after"] = None if p.get("mode") == "enum" else ch.pick("sub.cancel_after", [None] * 18 + [0.0, 0.02, 3.0])
         # the consumer may leave early (break out of the async for / never start it) and close the generator: nothing is
         # asserted about that subscription beyond what happened before it left, but the other subscriptions on the same
         # client object keep their full oracle
@@ -269,6 +274,12 @@ def draw_config(case, ch: Choices):
         else:
             s["script"] = drawn_script(ch, s["via"], probe)
         subs.append(s)
+    cfg["one_task"] = nsubs == 2 and not cfg["sequential_reconfig"] and ch.chance("cfg.one_task", 1, 4)
+    if cfg["one_task"]:
+        for s_ in subs:
+            s_["leave_after"] = None
+            s_["cancel_after"] = None
+            s_["start_delay"] = 0.0
     eff = {"init_payload": cfg["init_payload"], "ws_headers": cfg["ws_headers"], "origin": cfg["origin"]}
     for i, s in enumerate(subs):
         if cfg["sequential_reconfig"] and i > 0:
@@ -514,11 +525,26 @@ def simulate(case, ch: Choices, variant_override=None):
 
         async def consume(sub, rec):
             try:
-                await _consume(sub, rec)
+                await _prepare(sub)          # (waiting for its turn and re-configuring the client is not part of what gets cancelled)
+                if sub.get("cancel_after") is not None:
+                    inner = asyncio.ensure_future(_consume(sub, rec))
+                    done, _pend = await asyncio.wait([inner], timeout=sub["cancel_after"])
+                    if not done:
+                        inner.cancel()
+                        try:
+                            await inner
+                        except BaseException:  # noqa
+                            pass
+                        rec.terminal = ("left", None, {"after": len(rec.yields), "cancelled_pending_step": True})
+                        rec.client_done_time = loop.time()
+                    elif inner.exception() is not None:
+                        raise inner.exception()
+                else:
+                    await _consume(sub, rec)
             finally:
                 done_events[sub["index"]].set()
 
-        async def _consume(sub, rec):
+        async def _prepare(sub):
             if cfg.get("sequential_reconfig") and sub["index"] > 0:
                 await done_events[sub["index"] - 1].wait()
                 rc = sub.get("reconf") or {}
@@ -533,6 +559,8 @@ def simulate(case, ch: Choices, variant_override=None):
                     shared.ws_headers = dict(rc["ws_headers"]) if rc["ws_headers"] is not None else {}
                 if "origin" in rc:
                     shared.ws_origin = rc["origin"]
+
+        async def _consume(sub, rec):
             await asyncio.sleep(sub["start_delay"])
             it, opname, variables, root = make_call(mods, variant, sub, shared)   # harness code
             rec.call = (opname, variables, root)
@@ -560,7 +588,37 @@ def simulate(case, ch: Choices, variant_override=None):
                 rec.terminal = ("exc", name, inf)
             rec.client_done_time = loop.time()
 
-        tasks = [asyncio.ensure_future(consume(s, r)) for s, r in zip(cfg["subs"], recs)]
+        async def drive_all_from_one_task():
+            """One task advances every subscription in turn (an application that merges streams by hand): the iterators are
+            stepped round-robin, each step awaited to its end."""
+            its = []
+            for sub, rec in zip(cfg["subs"], recs):
+                it, opname, variables, root = make_call(mods, variant, sub, shared)
+                rec.call = (opname, variables, root)
+                its.append(it)
+            active = list(range(len(its)))
+            while active:
+                for i in list(active):
+                    rec = recs[i]
+                    try:
+                        item = await its[i].__anext__()
+                        rec.yields.append((loop.next_seq(), item))
+                        continue
+                    except StopAsyncIteration:
+                        rec.terminal = ("end", None, {})
+                    except asyncio.CancelledError:
+                        rec.terminal = ("cancelled", None, {})
+                        raise
+                    except BaseException as e:  # noqa
+                        name, inf = _exc_info(e)
+                        rec.terminal = ("exc", name, inf)
+                    rec.client_done_time = loop.time()
+                    active.remove(i)
+
+        if cfg.get("one_task"):
+            tasks = [asyncio.ensure_future(drive_all_from_one_task())]
+        else:
+            tasks = [asyncio.ensure_future(consume(s, r)) for s, r in zip(cfg["subs"], recs)]
         # wait: all clients done; liveness budget counted from the moment every server
         # handler has finished (closed or lingered out)
         while True:
@@ -569,7 +627,7 @@ def simulate(case, ch: Choices, variant_override=None):
                 break
             servers_done = all((r.opened is None) or (r.server_done_time is not None) for r in recs)
             latest = max([r.server_done_time or 0.0 for r in recs] + [0.0])
-            if servers_done and all(r.opened is not None or t.done() for r, t in zip(recs, tasks)) \
+            if servers_done and all(r.opened is not None or t.done() for r, t in zip(recs, tasks if len(tasks) == len(recs) else tasks * len(recs))) \
                     and loop.time() > latest + LIVENESS_BUDGET:
                 for t in pend:
                     t.cancel()
@@ -632,11 +690,11 @@ def _norm_client_frame(f):
 
 def observable(cfg, recs):
     out = []
-    someone_left = any(s.get("leave_after") is not None for s in cfg["subs"])
+    someone_left = any(s.get("leave_after") is not None or s.get("cancel_after") is not None for s in cfg["subs"]) or bool(cfg.get("one_task"))
     for r in recs:
         script = cfg["subs"][r.index]["script"]
         _frames, _how = script_frames(script)
-        disturbed = _how != "linger" or any(st["s"] == "stall" and st["d"] >= 9.0 for st in script)
+        disturbed = _how != "linger" or any(st["s"] == "stall" and st["d"] >= 9.0 for st in script) or bool(cfg.get("one_task"))
         ys = []
         for _, y in r.yields:
             ys.append(y.model_dump(by_alias=True, mode="json") if hasattr(y, "model_dump") else y)
@@ -683,6 +741,9 @@ def judge(cfg, recs, info, res: RunResult, variant):
         # server-initiated close/abort or a long stall legitimately races with the client's
         # own sends (pong, close handshake, even frames still in flight are lost on RST)
         disturbed = how != "linger" or any(st["s"] == "stall" and st["d"] >= 9.0 for st in script)
+        # one task stepping several iterators in turn: an iterator that is not being stepped reacts late (its server may have
+        # given up and closed by then) - judged like a disturbed connection: correct prefix, no extra pongs, documented outcomes
+        disturbed = disturbed or bool(cfg.get("one_task"))
         exact = not disturbed
         if term is None or term[0] in ("hang", "cancelled"):
             V("liveness-no-termination", "%s: iterator did not terminate within %ss (simulated) after the server finished"
@@ -700,6 +761,10 @@ def judge(cfg, recs, info, res: RunResult, variant):
                 if r.opened is not None:
                     res.observations.append("generator-closed-before-first-iteration-still-connected")
                 continue
+            if term[2].get("cancelled_pending_step"):
+                res.bump("consumer.cancelled_a_pending_step")
+                if r.opened is None:
+                    continue
         # ---- connection never reached the server
         if r.opened is None:
             V("handshake-failed", "%s: no websocket connection reached the real websockets server; client outcome %r"
@@ -811,7 +876,9 @@ def judge(cfg, recs, info, res: RunResult, variant):
             V("pong-extra", "%s: %d pongs for %d pings before the terminal event" % (tag, len(pongs), exp["pongs"]))
         tkind = exp["terminal"][0]
         res.bump("oracle.exact" if exact else "oracle.relaxed")
-        if exact and len(pongs) != exp["pongs"] and "send-after-close" not in r.server_notes[:0]:
+        # (one task stepping several iterators: a ping is answered when its iterator is stepped next, possibly after the handler
+        # stopped recording - only extra pongs are judged there, and no timing)
+        if exact and not cfg.get("one_task") and len(pongs) != exp["pongs"] and "send-after-close" not in r.server_notes[:0]:
             V("pong-missing", "%s: %d pongs for %d pings before the terminal event" % (tag, len(pongs), exp["pongs"]))
         # ---- yields
         ys = [y for _, y in r.yields]
@@ -872,7 +939,8 @@ def judge(cfg, recs, info, res: RunResult, variant):
             if term[0] == "exc" and not (term[1] in ALLOWED_TRANSPORT_EXC):
                 V("transport-exc-family", "%s: server ended with %s and the iterator raised %s %s" % (tag, how, term[1], term[2]), exc=term[1])
         # ---- socket closed after a protocol terminal
-        if tkind in ("complete", "error", "invalid", "error_or_invalid") and how == "linger" and r.server_saw_close is False:
+        if tkind in ("complete", "error", "invalid", "error_or_invalid") and how == "linger" and r.server_saw_close is False \
+                and not cfg.get("one_task"):
             V("socket-not-closed", "%s: %ss after the terminal %s frame the client had not closed the socket" % (tag, LIVENESS_BUDGET, tkind))
 
 
